@@ -492,6 +492,20 @@ impl<'q> Into<String> for &'q str { fn into(self) -> String { String::from("host
     "c_binders": "\n".join("#[allow(non_upper_case_globals)] const %s: &str = \"hostile\";" % n_ for n_ in
                             ("input", "other", "name", "text", "key", "word", "candidate", "variant", "spelling", "lit", "lower", "upper", "this", "that", "raw",
                              "string", "needle", "src", "val", "item", "elem", "arg", "found", "matched", "result", "res", "out", "ret", "tmp")),
+    # a blanket extension trait with BY-VALUE methods named like the methods the derives generate or implement: a generated `x.into_str()` /
+    # `self.get_message()` written as a METHOD CALL on a by-value receiver finds it before it auto-refs to the intended `&self` method (seed C03_r16)
+    "ByValue": """trait HostileByValue: Sized {
+    fn into_str(self) -> &'static str { "hostile" }
+    fn get_message(self) -> ::core::option::Option<&'static str> { ::core::option::Option::Some("hostile") }
+    fn get_detailed_message(self) -> ::core::option::Option<&'static str> { ::core::option::Option::Some("hostile") }
+    fn get_documentation(self) -> ::core::option::Option<&'static str> { ::core::option::Option::Some("hostile") }
+    fn get_str(self, _k: &::core::primitive::str) -> ::core::option::Option<&'static str> { ::core::option::Option::Some("hostile") }
+    fn get_int(self, _k: &::core::primitive::str) -> ::core::option::Option<i64> { ::core::option::Option::Some(-1) }
+    fn get_bool(self, _k: &::core::primitive::str) -> ::core::option::Option<bool> { ::core::option::Option::Some(true) }
+    fn discriminant(self) -> u8 { 0 }
+    fn get(self, _i: usize) -> ::core::option::Option<u8> { ::core::option::Option::None }
+}
+impl<T> HostileByValue for T {}""",
     "PhantomData": "struct PhantomData;\nmod marker {}\nmod fmt {}\nmod iter {}\nmod option {}\nmod result {}\nmod convert {}\nmod default {}",
 }
 
